@@ -4,11 +4,11 @@
 //
 // op line:  <mode> <app> <descriptor> <history> <x1> <x2>
 //   history : `-` or  addr~tag~payload;addr~tag~payload…   (tags i c f T F s S; f: bit pattern,
-//             s/S: hex bytes)
+//             s/S: hex bytes); a message with several arguments: addr~tag~payload~tag~payload…
 //   sl   - - : run history, save, load into a fresh instance
 //              ->  O <fields> S <lines> H <header ok> R <rc> F <fields after load>
 //   bad  <kind> <arg> : as sl, but the file is damaged first (magic rver app aver parse line tok)
-//              ->  R <rc> F <fields | ->
+//              ->  O <fields> R <rc> F <fields | ->
 //              tok <line>:<idx>:<hex|->  replaces (deletes) the idx-th blank-separated token of header line 0/1
 //              line <k>:<msg>            inserts a message at position k; tag `-` = a message without arguments
 //   meta - - : the three dependency keys of every port of the compiled tables, pre-order
@@ -61,36 +61,58 @@ static std::string join(const std::vector<std::string> &v, const char *sep) {
     return o;
 }
 
-struct HMsg { std::string addr; char tag; std::string payload; };
+struct HMsg { std::string addr; char tag; std::string payload; std::vector<std::pair<char, std::string>> more; };
 
 static bool parse_hist(const std::string &h, std::vector<HMsg> &out) {
     if(h == "-") return true;
     for(const std::string &m : split(h, ';')) {
         std::vector<std::string> p = split(m, '~');
-        if(p.size() != 3 || p[1].size() != 1) return false;
-        out.push_back(HMsg{p[0], p[1][0], p[2]});
+        if(p.size() < 3 || p.size() % 2 != 1 || p[1].size() != 1) return false;
+        HMsg hm{p[0], p[1][0], p[2], {}};
+        for(size_t i = 3; i + 1 < p.size(); i += 2) {
+            if(p[i].size() != 1) return false;
+            hm.more.push_back({p[i][0], p[i + 1]});     // arguments behind the first
+        }
+        out.push_back(hm);
     }
     return true;
 }
 
-// build the OSC message for one history entry / inserted line
-static bool build_msg(const HMsg &m, char *buf, size_t n, rtosc_arg_val_t *av, std::string &strstore) {
-    av->type = m.tag;
-    switch(m.tag) {
-        case 'i': av->val.i = (int32_t)strtol(m.payload.c_str(), NULL, 10); return rtosc_message(buf, n, m.addr.c_str(), "i", av->val.i) != 0;
-        case 'c': av->val.i = (int32_t)strtol(m.payload.c_str(), NULL, 10); return rtosc_message(buf, n, m.addr.c_str(), "c", av->val.i) != 0;
-        case 'f': { uint32_t b = (uint32_t)strtoul(m.payload.c_str(), NULL, 16); float f; memcpy(&f, &b, 4); av->val.f = f;
-                    return rtosc_message(buf, n, m.addr.c_str(), "f", f) != 0; }
-        case '-': return rtosc_message(buf, n, m.addr.c_str(), "") != 0;
-        case 'T': av->val.T = 1; return rtosc_message(buf, n, m.addr.c_str(), "T") != 0;
-        case 'F': av->val.T = 0; return rtosc_message(buf, n, m.addr.c_str(), "F") != 0;
+// one argument of a history entry / inserted line
+static bool build_arg(char tag, const std::string &payload, rtosc_arg_val_t *av, std::string &strstore) {
+    av->type = tag;
+    switch(tag) {
+        case 'i': case 'c': av->val.i = (int32_t)strtol(payload.c_str(), NULL, 10); return true;
+        case 'f': { uint32_t b = (uint32_t)strtoul(payload.c_str(), NULL, 16); float f; memcpy(&f, &b, 4); av->val.f = f; return true; }
+        case 'T': av->val.T = 1; return true;
+        case 'F': av->val.T = 0; return true;
         case 's': case 'S': {
-            bytes b; if(!unhex(m.payload.empty() ? "-" : m.payload, b)) return false;
+            bytes b; if(!unhex(payload.empty() ? "-" : payload, b)) return false;
             strstore.assign((const char *)b.data(), b.size());
             av->val.s = strstore.c_str();
-            return rtosc_message(buf, n, m.addr.c_str(), m.tag == 's' ? "s" : "S", strstore.c_str()) != 0; }
+            return true; }
     }
     return false;
+}
+
+// build the OSC message for one history entry / inserted line; avs receives the argument values
+static bool build_msg(const HMsg &m, char *buf, size_t n, std::vector<rtosc_arg_val_t> &avs, std::vector<std::string> &strs) {
+    avs.clear();
+    if(m.tag == '-') return rtosc_message(buf, n, m.addr.c_str(), "") != 0;
+    std::vector<std::pair<char, std::string>> all;
+    all.push_back({m.tag, m.payload});
+    all.insert(all.end(), m.more.begin(), m.more.end());
+    avs.resize(all.size());
+    strs.assign(all.size(), std::string());
+    std::string types;
+    std::vector<rtosc_arg_t> args;      // rtosc_amessage: one slot per payload-carrying tag
+    for(size_t i = 0; i < all.size(); ++i) {
+        if(!build_arg(all[i].first, all[i].second, &avs[i], strs[i])) return false;
+        types += all[i].first;
+        if(all[i].first != 'T' && all[i].first != 'F') args.push_back(avs[i].val);
+    }
+    args.push_back(rtosc_arg_t());
+    return rtosc_amessage(buf, n, m.addr.c_str(), types.c_str(), args.data()) != 0;
 }
 
 static int dispatch(VApp &a, const char *msg) {
@@ -262,8 +284,8 @@ static std::string step(const std::string &line) {
     if(!parse_hist(w[3], hist)) return "bad-op";
     char buf[2048];
     for(const HMsg &m : hist) {
-        rtosc_arg_val_t av; std::string st;
-        if(!build_msg(m, buf, sizeof buf, &av, st)) return "bad-op";
+        std::vector<rtosc_arg_val_t> avs; std::vector<std::string> sts;
+        if(!build_msg(m, buf, sizeof buf, avs, sts)) return "bad-op";
         dispatch(*a, buf);
     }
     std::string O = fields(*a);
@@ -346,10 +368,11 @@ static std::string step(const std::string &line) {
                 k = (size_t)atol(w[5].substr(0, c).c_str());
                 std::vector<HMsg> one;
                 if(!parse_hist(w[5].substr(c + 1), one) || one.size() != 1) return "bad-op";
-                rtosc_arg_val_t av; std::string st;
-                if(!build_msg(one[0], buf, sizeof buf, &av, st)) return "bad-op";
+                std::vector<rtosc_arg_val_t> avs; std::vector<std::string> sts;
+                if(!build_msg(one[0], buf, sizeof buf, avs, sts)) return "bad-op";
                 char pr[4096];
-                rtosc_print_message(one[0].addr.c_str(), &av, one[0].tag == '-' ? 0 : 1, pr, sizeof pr, NULL, 0);
+                rtosc_arg_val_t none_av;
+                rtosc_print_message(one[0].addr.c_str(), avs.empty() ? &none_av : avs.data(), avs.size(), pr, sizeof pr, NULL, 0);
                 ins = pr;
                 while(!ins.empty() && (ins.back() == '\n' || ins.back() == ' ')) ins.pop_back();
             }
@@ -361,7 +384,7 @@ static std::string step(const std::string &line) {
         } else return "bad-op";
         int rc;
         std::string F = load_into_fresh(appid, t2, rc);
-        return "R " + rc_str(rc) + " F " + F;
+        return "O " + O + " R " + rc_str(rc) + " F " + F;
     }
     if(mode == "perm") {
         uint32_t seed = (uint32_t)strtoul(w[4].c_str(), NULL, 10);
